@@ -1,15 +1,207 @@
 /-
-Props/C16.lean — property C16 (FITS output followed by input).  Work in progress: first theorems.
+Props/C16.lean — property C16: FITS output followed by input reproduces values, orientation and pixel
+scale.  The theorems are about the Impl layer of Model/Fits.lean (transliterations of the writers,
+the readers and of `numpy_array_*_to_fits`), for every shape, mask, value list, pixel-scale pair, flip
+setting, HDU index and filesystem state.  astropy and the operating system enter only through the
+contracts stated in Model/Fits.lean ("an HDU / a file holds what was written"; `FS`), which the
+correspondence run exercises and nothing here proves.
 -/
 import Model.Fits
 import Proofs.Fits
+import Proofs.FitsFS
 
 open Model Model.Fits
 
 namespace C16
 
-/-- the DS9 flip is an involution: the flip applied on output is undone on input, for either setting -/
+/-- (flip) the DS9 flip is an involution: the flip applied on output is undone on input, for either
+    setting of the option, on 2-D and on 1-D data -/
 theorem flip_undone (flip : Bool) (d : Data α) : flipIf flip (flipIf flip d) = d :=
   flipIf_flipIf flip d
+
+/-- (flip') what is written really is flipped when the option is on, and untouched when it is off:
+    row `y` of the HDU data of an `h`-row array is row `h-1-y` of the array. -/
+theorem output_is_flipped (rows : List (List α)) (hdr : List (String × α)) :
+    (hduForOutput2d true rows hdr).data = .d2 rows.reverse
+    ∧ (hduForOutput2d false rows hdr).data = .d2 rows := by
+  simp [hduForOutput2d, flipIf, flipud]
+
+/-- (header) the pixel scales written to the header are the ones read back, isotropic or not (2-D),
+    and in 1-D -/
+theorem scales_header_roundtrip [DecidableEq α] (sy sx s zero : α) :
+    scales2dFromHeader (pixelScaleHeader [sy, sx] zero) = some (sy, sx)
+    ∧ scales1dFromHeader (pixelScaleHeader [s] zero) = some s :=
+  ⟨scales2d_roundtrip sy sx zero, scales1d_roundtrip s zero⟩
+
+/-- (array, HDU route) `Array2D.from_primary_hdu(a.hdu_for_output)` for an array (or kernel) on any
+    mask, with any values, pixel scales and flip setting: an unmasked array of the same shape whose
+    native values are exactly `a.native` and whose pixel scales are `a`'s. -/
+theorem array2d_hdu_roundtrip [DecidableEq α] (flip : Bool) (m : Mask) (slim : List α) (sc : α × α)
+    (zero : α) (hh : 0 < m.h) :
+    ∃ r, array2dFromHdu flip (array2dHdu flip m slim sc zero) zero = some r
+      ∧ r.mask = allFalse m.h m.w ∧ r.scales = sc
+      ∧ r.native zero = some (Impl.nativeFrom m slim zero) :=
+  array2dFromHdu_hduForOutput2d flip m.h m.w _ sc zero hh (nativeFrom_length m slim zero)
+
+/-- (array, file route, any HDU index) if HDU `k` of a file is the HDU written for the array, then
+    `from_fits(path, pixel_scales, hdu=k)` returns an unmasked array of the same shape and native
+    values (with the caller's pixel scales), and the header objects attached carry the cards that
+    encode the array's own pixel scales. -/
+theorem array2d_file_roundtrip [DecidableEq α] (flip : Bool) (file : File α) (k : Nat) (m : Mask)
+    (slim : List α) (sc user : α × α) (zero : α) (hh : 0 < m.h)
+    (hk : file[k]? = some (array2dHdu flip m slim sc zero)) :
+    (∃ r, array2dFromFits flip file k user zero = some r
+      ∧ r.mask = allFalse m.h m.w ∧ r.scales = user
+      ∧ r.native zero = some (Impl.nativeFrom m slim zero))
+    ∧ (∀ h0, file[0]? = some h0 → ∃ hd, headersFromFits file k = some (h0.header, hd)
+        ∧ scales2dFromHeader hd = some sc) := by
+  constructor
+  · exact array2dFromFits_hduForOutput2d flip file k m.h m.w _ _ user zero hh
+      (nativeFrom_length m slim zero) hk
+  · intro h0 hh0
+    refine ⟨(array2dHdu flip m slim sc zero).header, by simp [headersFromFits, hh0, hk], ?_⟩
+    simp [array2dHdu, hduForOutput2d, scales2d_roundtrip]
+
+/-- (single-HDU file) the file `output_to_fits` writes is the one-HDU file of `hdu_for_output`, so
+    the previous theorem applies with `k = 0` -/
+theorem written_file_hdu0 (hdu : Hdu α) : (fileOf hdu)[0]? = some hdu := rfl
+
+/-- (masked arrays) the native values written and read back are the slim values at their pixels and
+    **zero at every masked pixel**, whatever the stored array held there. -/
+theorem masked_pixels_read_zero (m : Mask) (slim : List α) (zero : α) :
+    (∀ y x, y < m.h → x < m.w → m.get y x = true →
+        (Impl.nativeFrom m slim zero)[y * m.w + x]? = some zero)
+    ∧ (∀ k (hk : k < (Impl.nativeForSlim m).length),
+        (Impl.nativeFrom m slim zero)[((Impl.nativeForSlim m)[k]).1 * m.w + ((Impl.nativeForSlim m)[k]).2]?
+          = some (slim.getD k zero)) := by
+  constructor
+  · intro y x hy hx hm
+    have hj : y * m.w + x < m.h * m.w := flat_lt (p := (y, x)) (mem_pixels.mpr ⟨hy, hx⟩)
+    exact nativeFrom_masked m slim zero _ hj (by simpa [Mask.get] using hm)
+  · intro k hk
+    have hk' : k < (Spec.unmaskedPixels m).length := by rw [← nativeForSlim_eq]; exact hk
+    have := nativeFrom_hit m slim zero k hk'
+    simp only [nativeForSlim_eq]
+    exact this
+
+/-- (mask, HDU route) a mask written as floats and read back is the same mask — same shape, same
+    booleans — with the same pixel scales, for either flip setting -/
+theorem mask2d_hdu_roundtrip [DecidableEq α] (flip : Bool) (m : Mask) (sc : α × α) (zero one : α)
+    (h10 : one ≠ zero) (hwf : m.WF) (hh : 0 < m.h) :
+    mask2dFromHdu flip (mask2dHdu flip m sc zero one) zero = some (m, sc) := by
+  obtain ⟨h', hh'⟩ : ∃ h', m.h = h' + 1 := ⟨m.h - 1, by omega⟩
+  have hlen : (m.bits.map (boolToNum zero one)).length = m.h * m.w := by simpa [Mask.WF] using hwf
+  have h1 : (toRows m.h m.w (m.bits.map (boolToNum zero one))).length = m.h := toRows_length _ _ _
+  have h2 : ((toRows m.h m.w (m.bits.map (boolToNum zero one))).headD []).length = m.w := by
+    rw [hh'] at hlen ⊢
+    exact toRows_head_length h' m.w _ hlen
+  have h3 := toRows_flatten m.h m.w _ hlen
+  simp only [mask2dFromHdu, mask2dHdu, hduForOutput2d, flipIf_flipIf, scales2d_roundtrip, h1, h2, h3,
+    map_numToBool_boolToNum zero one h10]
+
+/-- (mask, file route) likewise through a file, from any HDU index, optionally inverted on input -/
+theorem mask2d_file_roundtrip [DecidableEq α] (flip : Bool) (file : File α) (k : Nat) (m : Mask)
+    (sc : α × α) (zero one : α) (invert : Bool) (h10 : one ≠ zero) (hwf : m.WF) (hh : 0 < m.h)
+    (hk : file[k]? = some (mask2dHdu flip m sc zero one)) :
+    mask2dFromFits flip file k invert zero
+      = some ⟨m.h, m.w, if invert then m.bits.map (!·) else m.bits⟩ := by
+  obtain ⟨h', hh'⟩ : ∃ h', m.h = h' + 1 := ⟨m.h - 1, by omega⟩
+  have hlen : (m.bits.map (boolToNum zero one)).length = m.h * m.w := by simpa [Mask.WF] using hwf
+  have h1 : (toRows m.h m.w (m.bits.map (boolToNum zero one))).length = m.h := toRows_length _ _ _
+  have h2 : ((toRows m.h m.w (m.bits.map (boolToNum zero one))).headD []).length = m.w := by
+    rw [hh'] at hlen ⊢
+    exact toRows_head_length h' m.w _ hlen
+  have h3 := toRows_flatten m.h m.w _ hlen
+  simp only [mask2dFromFits, hk, mask2dHdu, hduForOutput2d, flipIf_flipIf, h1, h2, h3,
+    map_numToBool_boolToNum zero one h10]
+
+/-- (1-D arrays) written data are the native 1-D values (zeros at masked entries), never flipped —
+    the flip option does not enter these functions at all — and both readers return them with the
+    pixel scale written -/
+theorem array1d_roundtrip [DecidableEq α] (mask : List Bool) (slim : List α) (scale zero : α) :
+    array1dFromHdu (array1dHdu mask slim scale zero) = some (Impl.native1dFrom mask slim zero, scale)
+    ∧ array1dFromFits (fileOf (array1dHdu mask slim scale zero)) 0
+        = some (Impl.native1dFrom mask slim zero) := by
+  simp [array1dFromHdu, array1dHdu, hduForOutput1d, scales1d_roundtrip, array1dFromFits, fileOf]
+
+/-- (1-D masks) read back as the same booleans with the pixel scale written -/
+theorem mask1d_roundtrip [DecidableEq α] (mask : List Bool) (scale zero one : α) (h10 : one ≠ zero) :
+    mask1dFromHdu (mask1dHdu mask scale zero one) zero = some (mask, scale)
+    ∧ mask1dFromFits (fileOf (mask1dHdu mask scale zero one)) 0 zero = some mask := by
+  simp [mask1dFromHdu, mask1dHdu, hduForOutput1d, scales1d_roundtrip, mask1dFromFits, array1dFromFits,
+    fileOf, map_numToBool_boolToNum zero one h10]
+
+/-- (overwrite) for a target that names a file whose ancestors are not regular files:
+    `output_to_fits(path, overwrite)` **fails iff the path exists and overwrite was not requested**
+    (then with astropy's "already exists" error, the state unchanged); **otherwise** afterwards the
+    path holds exactly the new content (no trace of the old), every other file is untouched, and the
+    directories are the old ones plus all ancestors of the path (missing output directories created). -/
+theorem output_overwrite_semantics (fs : FS γ) (p : Path) (ow : Bool) (c : γ)
+    (ht : FS.Target fs p) (hc : FS.DirsClosed fs) :
+    (fs.isFile p = true ∧ ow = false ∧ output fs p ow c = .error "exists_no_overwrite")
+    ∨ ((fs.isFile p = false ∨ ow = true) ∧ ∃ fs', output fs p ow c = .ok fs'
+        ∧ fs'.read p = some c
+        ∧ fs'.files.filter (fun e => e.1 == p) = [(p, c)]
+        ∧ (∀ q, q ≠ p → fs'.read q = fs.read q)
+        ∧ (∀ d, fs'.isDir d = true ↔ (fs.isDir d = true ∨ d ∈ FS.prefixes p.dropLast))
+        ∧ (p.dropLast = [] ∨ fs.isDir p.dropLast = true → fs'.dirs = fs.dirs)) :=
+  FS.output_spec fs p ow c ht hc
+
+/-- (error iff) corollary in the property's own words -/
+theorem output_error_iff (fs : FS γ) (p : Path) (ow : Bool) (c : γ)
+    (ht : FS.Target fs p) (hc : FS.DirsClosed fs) :
+    (∃ e, output fs p ow c = .error e) ↔ (fs.isFile p = true ∧ ow = false) := by
+  rcases FS.output_spec fs p ow c ht hc with ⟨h1, h2, h3⟩ | ⟨h1, fs', h2, _⟩
+  · exact ⟨fun _ => ⟨h1, h2⟩, fun _ => ⟨_, h3⟩⟩
+  · constructor
+    · rintro ⟨e, he⟩; rw [h2] at he; cases he
+    · rintro ⟨hf, ho⟩
+      rcases h1 with h | h
+      · rw [hf] at h; cases h
+      · rw [ho] at h; cases h
+
+/-- (bare file name) a path without directory component is written into the working directory: no
+    directory is created, and the call succeeds exactly under the same overwrite rule -/
+theorem bare_name_cwd (fs : FS γ) (name : String) (ow : Bool) (c : γ)
+    (hnd : fs.isDir [name] = false) (hc : FS.DirsClosed fs) (hok : fs.isFile [name] = false ∨ ow = true) :
+    ∃ fs', output fs [name] ow c = .ok fs' ∧ fs'.read [name] = some c ∧ fs'.dirs = fs.dirs := by
+  have ht : FS.Target fs [name] := ⟨by simp, hnd, by simp [FS.prefixes]⟩
+  rcases FS.output_spec fs [name] ow c ht hc with ⟨h1, h2, _⟩ | ⟨_, fs', h2, h3, _, _, _, h7⟩
+  · rcases hok with h | h
+    · rw [h1] at h; cases h
+    · rw [h2] at h; cases h
+  · exact ⟨fs', h2, h3, h7 (Or.inl rfl)⟩
+
+/-! ### non-vacuity -/
+
+/-- a concrete masked, non-square, asymmetric array with anisotropic scales, flipped: the HDU holds the
+    rows upside-down with zeros at the masked pixels, and reading restores shape, values and scales -/
+example :
+    let m : Mask := ⟨2, 3, [true, false, false, false, true, true]⟩
+    let hdu := array2dHdu true m [(1 : Int), 2, 3] ((1 : Int), 2) 0
+    hdu.data = .d2 [[3, 0, 0], [0, 1, 2]]
+    ∧ hdu.header = [("PIXSCALEY", 1), ("PIXSCALEX", 2)]
+    ∧ (array2dFromHdu true hdu 0).map (fun r => (r.mask.h, r.mask.w, r.scales, r.native 0))
+        = some (2, 3, (1, 2), some [0, 1, 2, 3, 0, 0]) := by
+  decide
+
+/-- the hypotheses of the overwrite theorem are satisfiable, and both outcomes occur -/
+example :
+    let fs : FS Nat := ⟨[(["d", "x.fits"], 1)], [["d"]]⟩
+    FS.Target fs ["d", "x.fits"] ∧ FS.DirsClosed fs
+    ∧ (match output fs ["d", "x.fits"] false 2 with
+        | .error e => e == "exists_no_overwrite" | .ok _ => false) = true
+    ∧ (output fs ["d", "x.fits"] true 2).toOption.map (fun s => (s.files, s.dirs))
+        = some ([(["d", "x.fits"], 2)], [["d"]])
+    ∧ (output fs ["a", "b", "y.fits"] false 3).toOption.map (fun s => (s.files, s.dirs))
+        = some ([(["a", "b", "y.fits"], 3), (["d", "x.fits"], 1)], [["d"], ["a"], ["a", "b"]])
+    ∧ (output fs ["bare.fits"] false 4).toOption.map (fun s => (s.files, s.dirs))
+        = some ([(["bare.fits"], 4), (["d", "x.fits"], 1)], [["d"]]) := by
+  refine ⟨⟨by decide, by decide, by decide⟩, ?_, by decide, by decide, by decide, by decide⟩
+  intro d hd q hq
+  have : d = [] ∨ d = ["d"] := by simpa [FS.isDir] using hd
+  rcases this with rfl | rfl
+  · simp [FS.prefixes] at hq
+  · simp [FS.prefixes] at hq; subst hq; decide
 
 end C16
